@@ -37,6 +37,12 @@ GRID_DOCS = {
     'two3': 'ver:"3.0"\na\n1\n\nver:"3.0"\nb\n"s"\n',
     'dt2': 'ver:"2.0"\nt\n2020-01-02t03:04:05z\n2020-01-02T03:04:05Z UTC\n2020-06-01T00:00:00-04:00 New_York\n23:59:59.999\n',
 }
+C07_DOCS = {
+    'dtfix': 'ver:"3.0"\nt\n2020-01-15T12:00:00-07:00\n2020-07-15T12:00:00-07:00\n2020-03-08T02:30:00-07:00\n',
+    'dtfix2': 'ver:"2.0"\nt\n2020-07-15T12:00:00-07:00\n2020-01-15T12:00:00-07:00\n2021-11-07T01:30:00+05:45\n',
+    'ver25': 'ver:"2.5" a:1\nx\n"s"\n',
+    'ver300': 'ver:"3.0.0"\nx\n[1]\nNA\n',
+}
 SCALAR_DOCS = {
     'num': ('3.0', '-12_345.678e+5kW/h'), 'str': ('3.0', '"a\\"b\\u00e9\\n$x"'.replace('$', '\\$')), 'uri': ('2.0', '`http://a/b\\`c\\u0041`'),
     'ref': ('3.0', '@abc-1.2 "Display"'), 'date': ('2.0', '2020-02-29'), 'time': ('3.0', '12:34:56.789'), 'time6': ('2.0', '23:59:59.123456'),
@@ -112,6 +118,8 @@ def run_doc(hz, ref, name, text, job, ex_factory):
                 tw.char_domain(ex, c, None)
                 if job.get('alphabet'):
                     ex.assume(z3.Or(*[z3.And(c >= lo, c <= hi) for lo, hi in job['alphabet']]))
+                if job.get('ver_alphabet') and op == 'replace' and i in always:
+                    ex.assume(z3.Or(*[z3.And(c >= lo, c <= hi) for lo, hi in job['ver_alphabet']]))
                 if job.get('no_unicode_digits'):
                     for lo, hi in UNICODE_DIGIT_RANGES:
                         ex.assume(z3.Or(c < lo, c > hi))
@@ -151,6 +159,8 @@ def run_doc(hz, ref, name, text, job, ex_factory):
                 stats['reached'] += 1
                 if H[0] == 'exc':
                     e = H[1]
+                    if prop == 'C07':
+                        return ('ok',)
                     if prop in ('C03', 'C05'):
                         return ('cex', 'a well-formed text (accepted by the reference reader) is rejected: %s' % type(e).__name__, model())
                     if scalar:
@@ -163,6 +173,23 @@ def run_doc(hz, ref, name, text, job, ex_factory):
                         return ('cex', 'ZincParseException line=%r col=%r outside the text' % (e.line, e.col), model())
                     return ('ok',)
                 # accepted
+                if prop == 'C07':
+                    f = True
+                    for g in H[1]:
+                        try:
+                            with contextlib.redirect_stdout(io.StringIO()):
+                                msg, fg = c07_oracle(hz, g, True)
+                        except Exception as e:
+                            if isinstance(e, ValueError) and str(e).startswith('Unable to get timezone'):
+                                return ('ok',)          # documented: no mapped zone has this offset (C17)
+                            return ('cex', 're-dumping / re-parsing a parsed grid raised %s' % type(e).__name__, model())
+                        if msg is not None:
+                            return ('cex', msg, model())
+                        f = tw.b_and(f, fg)
+                    if f is not True and ex.check(z3.Not(to_z3(f))) == z3.sat:
+                        ex.add(z3.Not(to_z3(f)))
+                        return ('cex', 'a re-dumped / transcoded grid differs (or dump not idempotent)', model())
+                    return ('ok',)
                 if R[0] == 'reject':
                     if prop == 'C09' and any(R[1].startswith(s) for s in STRUCTURAL):
                         return ('cex', 'structurally broken text accepted (reference: %s)' % R[1], model())
@@ -208,7 +235,7 @@ def run_job(job):
     logging.disable(logging.CRITICAL)
     hz = tw.load()
     ref = tw.json_ref(True) if job.get('json') else tw.zinc_ref(True)
-    docs = JSON_DOCS if job.get('json') else (SCALAR_DOCS if job.get('scalar') else GRID_DOCS)
+    docs = JSON_DOCS if job.get('json') else (SCALAR_DOCS if job.get('scalar') else dict(GRID_DOCS, **C07_DOCS))
     t0 = time.time()
     allc, tot = [], None
     for name in job['docs']:
@@ -230,8 +257,10 @@ def run_job(job):
 
 
 def mutated(job, c):
-    docs = JSON_DOCS if job.get('json') else (SCALAR_DOCS if job.get('scalar') else GRID_DOCS)
+    docs = JSON_DOCS if job.get('json') else (SCALAR_DOCS if job.get('scalar') else dict(GRID_DOCS, **C07_DOCS))
     text = docs[c['doc']][1] if job.get('scalar') else docs[c['doc']]
+    if c['op'] == 'none':
+        return text
     if c['op'] == 'replace':
         return text[:c['pos']] + c['char'] + text[c['pos'] + 1:]
     return text[:c['pos']] + c['char'] + text[c['pos']:]
@@ -262,6 +291,22 @@ def replay(hz, job, c):
                 H = ('ok', hz.parse_scalar(t, mode=hz.MODE_ZINC, version=version) if scalar else hz.parse(t, mode=hz.MODE_ZINC, single=False))
     except Exception as e:
         H = ('exc', e)
+    if prop == 'C07':
+        if H[0] == 'exc':
+            return None
+        for g in H[1]:
+            try:
+                with contextlib.redirect_stdout(io.StringIO()):
+                    msg, f = c07_oracle(hz, g, False)
+            except Exception as e:
+                if isinstance(e, ValueError) and str(e).startswith('Unable to get timezone'):
+                    return None
+                return 'text %r parses, but re-dumping / re-parsing the grid raised %s: %s' % (t, type(e).__name__, str(e)[:160])
+            if msg is None and f is not True:
+                msg = 'a re-dumped / transcoded grid differs'
+            if msg is not None:
+                return 'text %r: %s' % (t, msg)
+        return None
     if H[0] == 'exc':
         e = H[1]
         if prop in ('C03', 'C05'):
@@ -287,6 +332,80 @@ def replay(hz, job, c):
         if f is not True:
             return 'text %r decoded as %r, reference denotation %r' % (t, H[1], R[1])
     return None
+
+
+def c07_oracle(hz, g, symbolic, origin='zinc'):
+    """C07 on one parser-made grid: re-dump in both formats, re-parse, transcode, idempotence, purity.
+    -> (message or None, formula)"""
+    jd = sys.modules['hszinc.jsondumper']
+    before = neutral.to_neutral(hz, g)
+    f = True
+    z1 = hz.dump(g, mode=hz.MODE_ZINC)
+    z1b = hz.dump(g, mode=hz.MODE_ZINC)
+    if symbolic:
+        j1 = jd._dump_grid_to_json(g)
+        j1b = jd._dump_grid_to_json(g)
+    else:
+        j1 = hz.dump(g, mode=hz.MODE_JSON)
+        j1b = hz.dump(g, mode=hz.MODE_JSON)
+    # two dumps of one grid are identical, and dumping does not modify the grid
+    e = tw.SymStr(z1).eq_term(z1b) if not (isinstance(z1, str) and isinstance(z1b, str)) else (z1 == z1b)
+    if e is False:
+        return 'two ZINC dumps of one grid differ', True
+    f = tw.b_and(f, e)
+    if not symbolic and j1 != j1b:
+        return 'two JSON dumps of one grid differ', True
+    after = neutral.to_neutral(hz, g)
+    if repr_tree(before) != repr_tree(after):
+        return 'dumping modified the grid', True
+    gz = hz.parse(z1, mode=hz.MODE_ZINC)
+    gj = hz.parse(j1, mode=hz.MODE_JSON)
+    e = tw.same_grid(hz, g, gz, dict(six_decimals=False))
+    if e is False:
+        return 'ZINC re-parse of the re-dumped grid differs: %s' % describe(hz, g, gz), True
+    f = tw.b_and(f, e)
+    e = tw.same_grid(hz, g, gj, dict(six_decimals=True))
+    if e is False:
+        return 'JSON re-parse of the re-dumped grid differs: %s' % describe(hz, g, gj), True
+    f = tw.b_and(f, e)
+    # normalising a document by parse-then-dump (in its own format) is idempotent, character for character
+    if origin == 'zinc':
+        z2 = hz.dump(gz, mode=hz.MODE_ZINC)
+        e = tw.SymStr(z1).eq_term(z2) if not (isinstance(z1, str) and isinstance(z2, str)) else (z1 == z2)
+        if e is False:
+            return 'parse-then-dump is not idempotent: %r then %r' % (z1 if isinstance(z1, str) else '<symbolic>', z2 if isinstance(z2, str) else '<symbolic>'), True
+        f = tw.b_and(f, e)
+    elif not symbolic:
+        j2 = hz.dump(gj, mode=hz.MODE_JSON)
+        if j1 != j2:
+            return 'parse-then-dump is not idempotent: %r then %r' % (j1, j2), True
+    # transcoding: ZINC -> JSON -> ZINC and JSON -> ZINC -> JSON
+    gzj = hz.parse(jd._dump_grid_to_json(gz) if symbolic else hz.dump(gz, mode=hz.MODE_JSON), mode=hz.MODE_JSON)
+    gjz = hz.parse(hz.dump(gj, mode=hz.MODE_ZINC), mode=hz.MODE_ZINC)
+    for name, other in (('ZINC->JSON', gzj), ('JSON->ZINC', gjz)):
+        e = tw.same_grid(hz, g, other, dict(six_decimals=True))
+        if e is False:
+            return 'transcoding %s loses information: %s' % (name, describe(hz, g, other)), True
+        f = tw.b_and(f, e)
+    return None, f
+
+
+def repr_tree(t):
+    return repr(t) if not _has_sym(t) else '<sym>'
+
+
+def _has_sym(t):
+    if isinstance(t, (list, tuple)):
+        return any(_has_sym(x) for x in t)
+    if z3 is not None and isinstance(t, SymStr):
+        return sstr.to_plain(t) is None
+    return type(t).__name__ in ('SymStr', 'SymInt', 'SymBool')
+
+
+def describe(hz, a, b):
+    if _has_sym([list(r.values()) for r in a]) or _has_sym([list(r.values()) for r in b]) or _has_sym([list(r.keys()) for r in b]):
+        return '<symbolic rows>'
+    return 'sent %r got %r' % (list(a), list(b))
 
 
 def json_forms(hz):
@@ -345,6 +464,47 @@ def json_forms(hz):
     return n, fails
 
 
+def corpus_run(hz, job):
+    """C07 on the unmodified corpus documents (ZINC corpus + JSON forms), plain CPython"""
+    import copy
+    fails = []
+    n = 0
+    for name in list(GRID_DOCS) + list(C07_DOCS):
+        n += 1
+        msg = replay(hz, dict(job, prop='C07'), dict(doc=name, op='none', pos=0, char=''))
+        if msg is not None:
+            fails.append((name, msg))
+    # JSON-origin grids
+    nested = {'meta': {'ver': '3.0'}, 'cols': [{'name': 'k'}], 'rows': [{'k': 'n:1'}]}
+    trees = {
+        'jbase': {'meta': {'ver': '3.0', 'dis': 's:x', 'mk': 'm:'}, 'cols': [{'name': 'a'}, {'name': 'b', 'unit': 's:m'}],
+                  'rows': [{'a': 'n:1.5 kW', 'b': True}, {'b': 'plain'}, {'a': 5, 'b': 'r:x Dis'}, {'a': 't:2020-07-15T12:00:00-07:00'}, {'a': 't:2020-01-15T12:00:00-07:00', 'b': 'h:12:30'}]},
+        'jnest': {'meta': {'ver': '3.0'}, 'cols': [{'name': 'a'}], 'rows': [{'a': ['n:1', {'g': nested}]}, {'a': 'x:hex:dead'}, {'a': 'c:1.5,2.25'}, {'a': 'z:'}]},
+        'jv2': {'meta': {'ver': '2.0'}, 'cols': [{'name': 'a'}], 'rows': [{'a': 'x:'}, {'a': 'b:text/plain'}, {'a': 'u:http://x'}, {'a': 'd:2020-02-29'}, {'a': 'n:INF'}]},
+    }
+    for name, tree in trees.items():
+        n += 1
+        try:
+            with contextlib.redirect_stdout(io.StringIO()):
+                g = hz.parse(copy.deepcopy(tree), mode=hz.MODE_JSON)
+                msg, f = c07_oracle(hz, g, False, 'json')
+            if msg is None and f is not True:
+                msg = 'a re-dumped / transcoded grid differs'
+        except Exception as e:
+            msg = 'raised %s: %s' % (type(e).__name__, str(e)[:160])
+        if msg is not None:
+            fails.append((name, msg))
+    return n, fails
+
+
+def replay_corpus(hz, job, c):
+    n, fails = corpus_run(hz, job)
+    for name, msg in fails:
+        if name == c:
+            return '%s: %s' % (name, msg)
+    return None
+
+
 def replay_forms(hz, job, c):
     n, fails = json_forms(hz)
     for name, msg in fails:
@@ -356,7 +516,16 @@ def replay_forms(hz, job, c):
 if __name__ == '__main__':
     job = json.loads(sys.argv[1])
     try:
-        if job.get('forms'):
+        if job.get('corpus'):
+            import logging
+            logging.disable(logging.CRITICAL)
+            sys.path.insert(0, common.REPO)
+            with contextlib.redirect_stdout(io.StringIO()):
+                import hszinc
+            n, fails = corpus_run(hszinc, job)
+            res = dict(job=job, status='done', cex=[], ncex=0, forms_run=n, forms_failures=fails, wall_s=0.0, functions=[], conc_calls=[],
+                       stats=dict(explorations=0, paths=n, checks=0, solver_s=0.0, nontrivial=n, errors=[], reached=n, budget=0))
+        elif job.get('forms'):
             import logging
             logging.disable(logging.CRITICAL)
             sys.path.insert(0, common.REPO)
